@@ -31,6 +31,8 @@ type Peer struct {
 	Now func() time.Time
 	// ExtraHeader fields appended to every header (e.g. SubIDs)
 	ExtraHeader []fixwire.Field
+	// ExplicitNoReset: Logons that do not ask for a reset say so (ResetSeqNumFlag=N) instead of leaving the field out
+	ExplicitNoReset bool
 	// Overfill: a gap fill at the end of a bounded replay also covers the administrative messages that follow the range
 	Overfill bool
 }
@@ -124,6 +126,8 @@ func (p *Peer) LogonBody(heartBt int, reset bool) []fixwire.Field {
 	b := []fixwire.Field{fixwire.F(98, "0"), fixwire.F(108, strconv.Itoa(heartBt))}
 	if reset {
 		b = append(b, fixwire.F(141, "Y"))
+	} else if p.ExplicitNoReset && p.Begin != "FIX.4.0" {
+		b = append(b, fixwire.F(141, "N"))
 	}
 	if p.Begin == "FIXT.1.1" {
 		b = append(b, fixwire.F(1137, "9"))
